@@ -20,6 +20,7 @@ from pyPRISM.core.Space import Space
 from .. import core
 from .. import refmodel as R
 from .. import gen as G
+from .. import tutorials as T
 from . import c09
 
 PID = 'C01'
@@ -61,6 +62,10 @@ def cases(ctx):
     rng = ctx.rng('c01')
     n = ctx.budget(320, 8000)
     lengths = [64, 100, 128, 200, 256] + ([384, 512] if ctx.thorough() else [])
+    for i, name in enumerate(T.NAMES):
+        # the maintainers' own case studies (tutorial notebooks, quick-start), re-enacted step by step
+        if ctx.mine(i):
+            yield {'kind': 'tutorial', 'name': name}
     for it in range(n):
         if it % 4 == 3:
             yield {'kind': 'cost_ref', 'seed': int(rng.integers(0, 2 ** 31)), 'via': str(rng.choice(G.VIAS)), 'kT_via': str(rng.choice(['ctor', 'assign']))}
@@ -216,9 +221,29 @@ def run_cost_ref(ctx, case):
     ctx.count('cost_ref_rank', len(sp['types']))
 
 
+def run_tutorial(ctx, case):
+    def on_step(sp, s, p, res, label):
+        ctx.hook('solve.converged')
+        ctx.hook('tutorial.step_judged')
+        oracle(ctx, sp, p, res, label)
+        ctx.count('tutorial', case['name'])
+        ctx.count('category', '%s/tutorial' % G.spec_signature(sp))
+        ctx.observe('tutorial_reported_residual', float(np.abs(res.fun).max()))
+
+    def before(sp, s, p):
+        _S['trace'] = []
+    nok, n = T.run(case['name'], on_step, quick=not ctx.thorough(), before_solve=before)
+    _S['trace'] = None
+    ctx.count('tutorial_steps', '%s: %d of %d solved' % (case['name'], nok, n))
+    if nok:
+        ctx.nontrivial(['tutorial', case['name']])
+
+
 def run_case(ctx, case):
     if case.get('kind') == 'cost_ref':
         return run_cost_ref(ctx, case)
+    if case.get('kind') == 'tutorial':
+        return run_tutorial(ctx, case)
     rng = np.random.default_rng(case['seed'])
     sp = G.gen_spec(rng, lengths=[64] if case['hybr'] else case['lengths'])
     if case.get('intgrid'):
